@@ -6,7 +6,7 @@
      mon_rot     (C12) a shifted battle is the rotated battle
    Verdict records: [code; where...]; [0; _] means nothing to report.
    Definitions only. *)
-From GM Require Export ApiSpec.
+From GM Require Export ApiSpec AsmSpec.
 Open Scope Z_scope.
 
 Definition tag_of (r : list Z) : Z := match r with x :: _ => x | [] => (-1) end.
@@ -319,5 +319,13 @@ Definition mon_case_all (l : list Z) (impl : list (list Z)) : list (list Z) :=
     end
   | 2 :: t => mon_api t impl
   | 4 :: t => nonempty_or_ok (mon_rot t impl)
+  | k :: _ => if (10 <=? k) && (k <=? 12) then nonempty_or_ok (mon_asm l impl) else [[0; 0]]
   | _ => [[0; 0]]
+  end.
+
+Definition spec_case2 (l : list Z) : list (list Z) :=
+  match l with
+  | 30 :: _ => spec_asm l
+  | 32 :: _ => spec_asm l
+  | _ => spec_case l
   end.
